@@ -77,6 +77,9 @@ def setup(c):
     for cls in E.CLASSES:
         anchors['__call__:' + cls] = getattr(spectrum, cls).__call__
     reach.watch(c, anchors)
+    reach.cover(c, {'Spectrum._setNFFT': psd.Spectrum._setNFFT, 'Spectrum._setSides': psd.Spectrum._setSides,
+                    'Spectrum._getPSD': psd.Spectrum._getPSD, 'Spectrum._setPSD': psd.Spectrum._setPSD,
+                    'Spectrum._setData': psd.Spectrum._setData, 'Spectrum.get_converted_psd': psd.Spectrum.get_converted_psd})
     c.extra['abstract_states'] = []
     c.extra['transitions_seen'] = []
     rng = c.rng('data')
@@ -108,10 +111,15 @@ def cases(c):
                 for s in seqs:
                     out.append({'cls': cls, 'start': start, 'ops': [list(ops[i]) for i in s], 'exhaustive': n,
                                 'directed': n == 1})
+                if start == 'A' and n <= 2:
+                    # the same histories on an object whose PSD was never computed (empty cache)
+                    for s in (seqs if n == 1 else seqs[::4]):
+                        out.append({'cls': cls, 'start': start, 'ops': [list(ops[i]) for i in s], 'exhaustive': n,
+                                    'fresh': True})
         for i in range(25 if c.tier == 'quick' else 10000):
             L = int(rng.integers(4, 13))
             seq = [list(ops[int(rng.integers(0, len(ops)))]) for _ in range(L)]
-            out.append({'cls': cls, 'start': gen.pick(rng, ['A', 'C']), 'ops': seq, 'i': i})
+            out.append({'cls': cls, 'start': gen.pick(rng, ['A', 'C']), 'ops': seq, 'fresh': bool(i % 3 == 0), 'i': i})
     return out
 
 
@@ -166,7 +174,8 @@ def run_case(c, d):
     feats0 = {'cls': cls}
     try:
         live = build_ref(cls, st)
-        live()                                   # initial computation: every history starts from a filled cache
+        if not d.get('fresh'):
+            live()                               # initial computation: the history starts from a filled cache
     except Exception as exc:
         c.discard('initial-computation-raised:%s' % type(exc).__name__)
         return
